@@ -274,6 +274,10 @@ func runC12(c *core.Ctx) {
 	if r.Chance(1, 2) {
 		n = r.Range(0, 64)
 	}
+	if c.Index%100 == 91 {
+		n = r.Range(65536, 140000) // beyond 2^16 (and sometimes 2^17) elements
+		c.Count("slices_beyond_65536_elements", 1)
+	}
 	spare := r.Intn(40)
 	if !spliceAll(n, spare, true) {
 		return
